@@ -204,7 +204,7 @@ class Gen:
         w = self.weights
         kinds = [
             ("new", 6), ("like", 10), ("transport", 18), ("arith", 16 * w.get("arith", 1)), ("scalar", 5), ("eq", 5), ("eq_magnitude_gap", 2 * w.get("arith", 1)), ("obs_bigint", 1 * w.get("arith", 1)), ("obs_loss_near", 2 * w.get("loss", 1)),
-            ("obs_x64", 1 * max(w.get("loss", 1), w.get("arith", 1), w.get("relayout", 1))),
+            ("obs_x64", 1 * max(w.get("loss", 1), w.get("arith", 1), w.get("relayout", 1))), ("obs_norm_gap", 1 * w.get("obs", 1)),
             ("append", 5), ("concat", 6), ("concat_empty", 2), ("concat_inverse", 5), ("expand", 4), ("combine", 4), ("reshape_pmap", 4),
             ("vector_rt", 4 * w.get("relayout", 1)), ("scalar_rt", 4 * w.get("relayout", 1)), ("images_rt", 3 * w.get("relayout", 1)),
             ("subset", 3), ("get_one", 2), ("copy", 2), ("empty", 1), ("mismatch", 2),
@@ -321,6 +321,10 @@ class Gen:
     def g_obs_loss_near(self):
         self.emit({"op": "obs_loss_near", "vseed": self.rng.getrandbits(24), "offset": self.rng.choice([0.0, 30.0, 300.0]), "err": self.rng.choice([1e-2, 1e-1, 1.0]),
                    "n_steps": self.rng.choice([1, 2]), "swap": self.rng.random() < 0.5})
+
+    def g_obs_norm_gap(self):
+        self.emit({"op": "obs_norm_gap", "vseed": self.rng.getrandbits(24), "lo_exp": self.rng.choice([-30, -20, -10]), "hi_exp": self.rng.choice([30, 40, 50]),
+                   "n_lead": self.rng.choice([1, 2]), "k": self.rng.choice([1, 1, 2])})
 
     def g_obs_x64(self):
         self.emit({"op": "obs_x64", "vseed": self.rng.getrandbits(24), "offset": self.rng.choice([0.0, 1.0, 1000.0]), "err_exp": self.rng.choice([-8, -10, -12]),
@@ -746,7 +750,7 @@ def _apply_ref(op: dict, refs: dict, D: int) -> bool:
         nr.blocks[t] = nb
         refs[op["reg"]] = nr
         return True
-    if o in ("obs_bigint", "obs_loss_near", "obs_x64"):
+    if o in ("obs_bigint", "obs_loss_near", "obs_x64", "obs_norm_gap"):
         return D >= 1
     if o == "empty":
         _need(refs, op["a"])
@@ -1140,7 +1144,7 @@ PROP_OF = {
     "transport": ("C13", "transport"), "copy": ("C13", "copy"), "empty": ("C13", "empty"), "vector_rt": ("C13", "vector_roundtrip"), "scalar_rt": ("C13", "scalar_roundtrip"),
     "images_rt": ("C13", "images_roundtrip"), "concat": ("C13", "concat"), "concat_inverse": ("C13", "concat_inverse"), "expand": ("C13", "expand"),
     "combine_axes": ("C13", "combine_axes"), "merge_axes": ("C13", "merge_axes"), "reshape_pmap": ("C13", "reshape_pmap"),
-    "new": ("C13", "construct"), "new_shaped": ("C13", "construct"), "append": ("C13", "append"), "setitem": ("C13", "setitem"), "obs_bigint": ("C12", "integer_arithmetic"), "obs_loss_near": ("C18", "definition_near_target"), "obs_x64": ("C18", "definition_float64"), "get_subset": ("C13", "subset"), "get_one": ("C13", "subset"),
+    "new": ("C13", "construct"), "new_shaped": ("C13", "construct"), "append": ("C13", "append"), "setitem": ("C13", "setitem"), "obs_bigint": ("C12", "integer_arithmetic"), "obs_loss_near": ("C18", "definition_near_target"), "obs_x64": ("C18", "definition_float64"), "obs_norm_gap": ("C14", "norm_magnitude_gap"), "get_subset": ("C13", "subset"), "get_one": ("C13", "subset"),
     "drop": ("C13", "aliasing"), "obs_group": ("C14", "group_action"), "obs_norm": ("C14", "norm"), "obs_pool": ("C14", "average_pool"),
     "obs_component": ("C14", "get_component"), "obs_batch_component": ("C14", "batch_get_component"), "obs_images": ("C14", "to_images"), "loss": ("C18", "loss"),
 }
@@ -1270,6 +1274,26 @@ def _run_real(op, regs, refs_after, D, bump, viol, log):
         _loss_near(op, D, bump, fail, guarded)
     elif o == "obs_x64":
         _x64(op, D, bump, fail, guarded)
+    elif o == "obs_norm_gap":
+        # entries (batch entries / channels) of very different magnitude in one block, each harmless alone: the norm of the
+        # small one must be what it is alone (a block-wide scale, max or sum would flush it)
+        rs = np.random.RandomState(op["vseed"])
+        k, nl = (op["k"] if D >= 2 else 0), op["n_lead"]
+        lead = (2, 2) if nl == 2 else (2,)
+        ints = rs.randint(1, 8, size=lead + (2,) * D + (D,) * k).astype(np.float32)
+        scale = np.ones(lead + (1,) * (D + k), dtype=np.float32)
+        scale[0] = np.float32(2.0) ** op["lo_exp"]
+        scale[1] = np.float32(2.0) ** op["hi_exp"]
+        blk = ints * scale
+        m = geom.MultiImage({(k, 0): jnp.asarray(blk)}, D, True)
+        res = guarded(lambda: m.norm(), "norm")
+        bump("obs_norm_gap")
+        flat = blk.reshape((-1,) + blk.shape[nl:])
+        single = np.stack([np.asarray(geom.GeometricImage(jnp.asarray(flat[j]), 0, D, True).norm().data) for j in range(flat.shape[0])]).reshape(lead + (2,) * D)
+        got = np.asarray(res[(0, 0)]) if (0, 0) in res else None
+        if got is None or got.shape != single.shape or not np.all(np.abs(got - single) <= 1e-6 * np.abs(single)):
+            fail("norm_magnitude_gap", {"lo_exp": op["lo_exp"], "hi_exp": op["hi_exp"], "n_lead": nl, "k": k,
+                                        "max_rel_dev": None if got is None or got.shape != single.shape else float(np.max(np.abs(got - single) / np.abs(single)))}, "C14")
     elif o == "concat":
         a, b = regs[op["a"]], regs[op["b"]]
         regs[op["out"]] = guarded(lambda: a.concat(b, axis=op["axis"]), "concat")
